@@ -314,22 +314,34 @@ impl<K, V, A: Allocator> CaoHashMap<K, V, A> {
 
             let result = std::ptr::read(self.values.as_ptr().add(i));
             self.hashes_mut()[i] = 0;
+            self.count -= 1;
 
             // if the consecutive buckets are not empty, move them back, so lookups dont fail
             // and they aren't in their optimal position
             //
+            let cap = self.capacity();
             let mut i = i; // track the last empty slot
-            let mut j = (i + 1) % self.capacity();
+            let mut j = (i + 1) % cap;
             while self.hashes()[j] != 0 {
-                // if the jth item is not in its optimal bucket, then move it back to the empty
-                // slot
-                if (self.hashes()[j] % self.capacity() as u64) != j as u64 {
-                    self.hashes_mut()[i] = self.hashes()[j];
-                    std::ptr::swap(self.keys.as_ptr().add(i), self.keys.as_ptr().add(j));
-                    std::ptr::swap(self.values.as_ptr().add(i), self.values.as_ptr().add(j));
+                let h = self.hashes()[j];
+                let home = (h.wrapping_mul(2654435769) as usize) % cap;
+                // the jth item may move back to the empty slot if that slot is on its probe path
+                if (j + cap - home) % cap >= (j + cap - i) % cap {
+                    self.hashes_mut()[i] = h;
+                    self.hashes_mut()[j] = 0;
+                    std::ptr::copy_nonoverlapping(
+                        self.keys.as_ptr().add(j),
+                        self.keys.as_ptr().add(i),
+                        1,
+                    );
+                    std::ptr::copy_nonoverlapping(
+                        self.values.as_ptr().add(j),
+                        self.values.as_ptr().add(i),
+                        1,
+                    );
                     i = j;
                 }
-                j = (j + 1) % self.capacity();
+                j = (j + 1) % cap;
             }
 
             return Some(result);
